@@ -139,7 +139,8 @@ contract(
     props=["C15", "C20"],
     params={"stopping_criterion": "Str", "tolerance": "Real",
             "check_criteria": "Str"},
-    modifies=["self.tolerance", "self.criterion", "self._stop_any"],
+    modifies=["self.tolerance", "self.criterion", "self._stop_any",
+              "self.stopping_criterion"],
     raises={"ValueError": f"not ({KNOWN}) or "
             "(check_criteria != 'any' and check_criteria != 'all')"},
     ensures=[
@@ -158,7 +159,8 @@ contract(
     params={"stopping_criterion": ("const", ["evidence_error", "ess"]),
             "tolerance": ("const", [0.1, 1000.0]),
             "check_criteria": "Str"},
-    modifies=["self.tolerance", "self.criterion", "self._stop_any"],
+    modifies=["self.tolerance", "self.criterion", "self._stop_any",
+              "self.stopping_criterion"],
     raises={"ValueError":
             "check_criteria != 'any' and check_criteria != 'all'"},
     ensures=[
@@ -175,7 +177,128 @@ contract(
     params={"stopping_criterion": ("const", ["ratio", "ess"]),
             "tolerance": ("const", [0.1]),
             "check_criteria": ("const", "any")},
-    modifies=["self.tolerance", "self.criterion", "self._stop_any"],
+    modifies=["self.tolerance", "self.criterion", "self._stop_any",
+              "self.stopping_criterion"],
     raises={"ValueError": "True"},
     ensures=["False"],
+)
+
+# ---- INS main loop: control skeleton --------------------------------------
+INS_FRAME = ("data-path method of the importance sampler (flows, draws, "
+             "plots): body not symbolically executed here; only its frame "
+             "over the attributes that control stopping is relied on, and "
+             "that frame is discharged by frame inference")
+# what the level-selection callees need (C17's reported domain); kept as an
+# ASSUMED loop invariant: it depends on how many draws land above the
+# threshold, which no contract here decides
+INS_LIVE_OK = [
+    "len(self.live_points_unit) >= 1",
+    "self.min_samples >= 1", "self.min_remove >= 1", "self.nlive >= 1",
+    "self.min_remove < len(self.live_points_unit)",
+    "implies(self.max_samples is not None and self.max_samples != 0, "
+    "self.max_samples > self.nlive)",
+    "len(self.training_samples.samples) >= self.min_samples",
+    "len(self.training_samples.log_q) == len(self.training_samples.samples)",
+    "implies(self.n_update is not None, 0 <= self.n_update and "
+    "self.n_update < len(self.live_points_unit))",
+    "len(self.criterion) == len(self.tolerance)",
+    "self.plotting_frequency >= 1",
+    "self.threshold_method == 'quantile' or "
+    "self.threshold_method == 'entropy'",
+]
+_TS = "self.training_samples"
+# these reach the ordered store only through operations that C04 proves
+# leave `samples` / `log_q` untouched (index arrays, threshold, evidence)
+_STORE_SAME = [
+    f"len({_TS}.samples) == old(len({_TS}.samples))",
+    f"len({_TS}.log_q) == old(len({_TS}.log_q))",
+]
+_INS_CALLEES = {
+    "_compute_gradient": ([], []),
+    "update_log_likelihood_threshold":
+        ([_TS, "self.log_likelihood_threshold"], _STORE_SAME),
+    "remove_samples": ([_TS], _STORE_SAME),
+    "add_new_proposal_weight": (["self.proposal"], []),
+    "update_evidence": ([_TS], _STORE_SAME),
+    "compute_importance": ([_TS], _STORE_SAME),
+    "log_state": ([], []), "update_history": ([], []),
+    "produce_plots": ([], []),
+}
+for _m, (_mod, _ens) in _INS_CALLEES.items():
+    contract(INS, f"ImportanceNestedSampler.{_m}", props=["C15"],
+             trusted=True, trusted_reason=INS_FRAME + (
+                 "; store contents unchanged (C04)" if _ens else ""),
+             frame_check=True, modifies=_mod, ensures=_ens,
+             returns=("Int" if _m == "remove_samples" else
+                      "Any" if _m == "compute_importance" else None))
+contract(INS, "ImportanceNestedSampler.checkpoint", props=["C15", "C13"],
+         trusted=True, trusted_reason=INS_FRAME, frame_check=True,
+         modifies=[])
+contract(INS, "ImportanceNestedSampler.compute_stopping_criterion",
+         props=["C15"], trusted=True, frame_check=True,
+         trusted_reason=INS_FRAME + "; returns one value per configured "
+         "criterion (wiring proved separately for the documented names)",
+         modifies=[], returns="List(Real)",
+         ensures=["len(result) == len(self.tolerance)"])
+contract(INS, "ImportanceNestedSampler.add_and_update_points",
+         props=["C15"], trusted=True, frame_check=True,
+         trusted_reason=INS_FRAME + "; ASSUMED: the next level still "
+         "satisfies the level-selection domain (INS_LIVE_OK)",
+         modifies=["self.live_points_unit", "self.training_samples",
+                   "self.proposal"],
+         ensures=INS_LIVE_OK)
+contract(INS, "ImportanceNestedSampler.initialise", props=["C15"],
+         trusted=True, frame_check=True,
+         trusted_reason=INS_FRAME + "; ASSUMED to establish INS_LIVE_OK",
+         modifies=["self.live_points_unit", "self.training_samples",
+                   "self.iteration", "self.criterion", "self.proposal"],
+         ensures=INS_LIVE_OK + ["self.iteration >= 0"])
+contract(INS, "ImportanceNestedSampler.finalise", props=["C15"],
+         trusted=True, frame_check=True, trusted_reason=INS_FRAME,
+         modifies=["self.finalised", "self.live_points_unit",
+                   "self.training_samples", "self.proposal"],
+         ensures=["self.finalised"])
+for _p in ("log_evidence", "nested_samples_unit", "samples"):
+    contract(INS, f"ImportanceNestedSampler.{_p}", props=["C15"],
+             trusted=True, trusted_reason="read-only property",
+             returns=("Real" if _p == "log_evidence" else "Any"))
+
+INS_LOOP_MOD = ["self.live_points_unit", "self.training_samples",
+                "self.proposal",
+                "self.iteration", "self.criterion", "self.importance",
+                "self.log_likelihood_threshold",
+                "self.current_training_samples",
+                "self.current_training_log_q", "self.training_time"]
+REACHED = ("(exists(k, 0, len(self.criterion), self.criterion[k] <= "
+           "self.tolerance[k]) if self._stop_any else forall(k, 0, "
+           "len(self.criterion), self.criterion[k] <= self.tolerance[k]))")
+
+contract(
+    INS, "ImportanceNestedSampler.nested_sampling_loop", props=["C15"],
+    requires=["len(self.criterion) == len(self.tolerance)",
+              "self.plotting_frequency >= 1"],
+    modifies=INS_LOOP_MOD + ["self.finalised"],
+    returns="Tuple(Real,Any)",
+    loops={0: {
+        "inv": INS_LIVE_OK + ["not self.finalised"],
+        "modifies": INS_LOOP_MOD,
+        # an iteration that reaches the cap does not start another one
+        "continue_pre": ["self.iteration < self.max_iteration"],
+        # an iteration starts only if the criteria are not (yet) met at or
+        # beyond the minimum iteration
+        "body_pre": [],
+    }},
+    ensures=[
+        # a finished sampler returns at once: nothing is modified (frame
+        # obligations) and no callee is invoked
+        "implies(old(self.finalised), self.iteration == old(self.iteration) "
+        "and self.finalised)",
+        # otherwise the loop is left at the first iteration, at or beyond
+        # the minimum, where the configured criteria (any / all) meet their
+        # tolerances, or at the iteration cap
+        f"implies(not old(self.finalised), ({REACHED} and "
+        "self.iteration >= self.min_iteration) or "
+        "self.iteration >= self.max_iteration)",
+        "implies(not old(self.finalised), self.finalised)",
+    ],
 )
